@@ -306,6 +306,13 @@ theorem emitInv_step (e : Ep) (ev : Ev) (hi : EmitInv e) : EmitInv (step e ev).1
       · split
         · exact emitInv_of_view (by rw [ev_doClose]; rfl) hi
         · exact emitInv_sendSessTerm _ _ _ (emitInv_of_view rfl hi)
+  | modulate raw =>
+    simp only []
+    split
+    · exact hi
+    · split
+      · exact emitInv_of_view rfl hi
+      · exact hi
 
 theorem emitInv_init (cfg : Cfg) : EmitInv { cfg := cfg } := by
   intro m hm; simp at hm
